@@ -1748,6 +1748,11 @@ func (self *Fork) expandForkFromObj(
 			return nil, nil
 		}
 		if len(keys) == 1 {
+			if len(self.node.forks)-1 > self.index {
+				pc := *part
+				part = &pc
+				self.forkId[i] = part
+			}
 			part.Id = mapKeyFork(keys[0])
 			self.updateId(self.forkId)
 			return nil, nil
